@@ -42,38 +42,64 @@ class WalkDirModel:
 B.EXT_STRUCT_MODELS['WalkDir'] = WalkDirModel
 
 
-def walk(interp, root, wd):
-    """depth-first walk, sibling order nondeterministic (directory order is unspecified)"""
-    w = FS.world(interp)
+class WalkIter(I.Iter):
+    """walkdir::IntoIter: depth-first, a directory's listing is pushed when the directory is yielded;
+    sibling order is nondeterministic unless sort_by_file_name was requested"""
 
-    def gen():
-        e = w.find(root)
-        if e is None:
-            yield Err(Struct('walkdir::Error', {'msg': Str('not found')}))
-            return
-        stack = [(e, 0)]
-        # explicit recursion to interleave children right after their directory
-        def visit(ent, depth):
-            mind = wd.f.get('min_depth', 0)
+    def __init__(self, interp, root, wd):
+        I.Iter.__init__(self, None)
+        self.w = FS.world(interp)
+        self.wd = wd
+        self.stack = []          # list of [remaining entries, depth]
+        self.started = False
+        self.root = root
+
+    def _listing(self, ent):
+        kids = self.w.children(ent[0])
+        if self.wd.f.get('sorted'):
+            return sorted(kids, key=lambda k: k[0].py() or '')
+        return list(I.unordered(kids))
+
+    def _yield(self, ent, depth):
+        maxd = self.wd.f.get('max_depth')
+        if ent[1] == 'dir' and (maxd is None or depth < maxd):
+            if self.w.fails('read_dir', ent[0]):
+                self.stack.append([[('err', None)], depth + 1])
+            else:
+                self.stack.append([self._listing(ent), depth + 1])
+        return Ok(Struct('DirEntry', {'path': ent[0], 'kind': Str(ent[1]), 'depth': B.UIntC(depth)}))
+
+    def _next_raw(self):
+        mind = self.wd.f.get('min_depth', 0)
+        while True:
+            if not self.started:
+                self.started = True
+                e = self.w.find(self.root)
+                if e is None:
+                    return Err(Struct('walkdir::Error', {'msg': Str('not found')}))
+                r = self._yield(e, 0)
+                if 0 >= mind:
+                    return r
+                continue
+            while self.stack and not self.stack[-1][0]:
+                self.stack.pop()
+            if not self.stack:
+                raise StopIteration
+            lst, depth = self.stack[-1]
+            ent = lst.pop(0)
+            if ent[0] == 'err':
+                return Err(Struct('walkdir::Error', {'msg': Str('permission denied')}))
+            r = self._yield(ent, depth)
             if depth >= mind:
-                yield Ok(Struct('DirEntry', {'path': ent[0], 'kind': Str(ent[1]), 'depth': B.UIntC(depth)}))
-            maxd = wd.f.get('max_depth')
-            if ent[1] == 'dir' and (maxd is None or depth < maxd):
-                if w.fails('read_dir', ent[0]):
-                    yield Err(Struct('walkdir::Error', {'msg': Str('permission denied')}))
-                    return
-                kids = w.children(ent[0])
-                if wd.f.get('sorted'):
-                    kids = sorted(kids, key=lambda k: k[0].py() or '')
-                    order = kids
-                else:
-                    order = list(I.unordered(kids))
-                for k in order:
-                    for x in visit(k, depth + 1):
-                        yield x
-        for x in visit(e, 0):
-            yield x
-    return I.gen(gen())
+                return r
+
+    def skip_current_dir(self):
+        if self.stack:
+            self.stack.pop()
+
+
+def walk(interp, root, wd):
+    return WalkIter(interp, root, wd)
 
 
 def pkg_version():
